@@ -104,6 +104,48 @@ theorem global_table_anchors :
     (hasVar Generated.globals "zitiql" "lexerPool" .syncPool && hasVar Generated.globals "zitiql" "parserPool" .syncPool &&
      hasVar Generated.globals "ast" "EnableQueryDebug" .atomic) = true := by decide
 
+/-- **No shared mutable object is handed out** (a proof about the table, as good as the extractor).
+    (a) No plain package-level variable whose value is mutable — a slice, a map, a (pointer to a) type with pointer-receiver
+    methods that write the receiver, a struct holding one — is returned by a function, embedded in what a function returns,
+    or stored into another object: otherwise every caller of that function holds THE SAME object (two `ast.Parse(s, "")`
+    calls returning one query node, whose `SetLimit` / `setPaging` then act on everybody's query).
+    (b) No function literal that outlives the call that created it (the `impl` closure of `NewBoolFuncSymbol` …) writes a
+    variable captured from the enclosing function outside a lock: such a variable exists once per constructor call and is
+    shared by every evaluation in every read transaction. -/
+theorem no_shared_mutable_escape : noSharedMutableEscape Generated.globals Generated.closures = true := by decide
+
+/-- what the decided Boolean says, spelled out with its quantifiers (for any table) -/
+theorem shared_escape_meaning (gs : List GlobalVar) (cs : List Closure) (h : noSharedMutableEscape gs cs = true) :
+    (∀ g ∈ gs, g.kind = .plain → g.mutable = true → g.escapes = []) ∧
+    (∀ c ∈ cs, ∀ w ∈ c.writes, w.underLock = true) := by
+  simp only [noSharedMutableEscape, Bool.and_eq_true, List.all_eq_true] at h
+  refine ⟨fun g hg hk hm => ?_, fun c hc w hw => ?_⟩
+  · have := h.1 g hg
+    simp only [GlobalVar.noSharedEscape, hk, hm, bne_self_eq_false, Bool.not_true, Bool.false_or,
+      List.isEmpty_iff] at this
+    exact this
+  · have := h.2 c hc
+    simp only [Closure.ok, List.all_eq_true] at this
+    exact this w hw
+
+/-- the escape analysis is not blind on this tree: it sees `ast.Parse` embedding the (immutable) `BoolNodeTrue` in the query
+    node it returns, it classifies the maps as mutable, and the closure table contains the external symbol constructors -/
+theorem escape_table_anchors :
+    (hasEscape Generated.globals "ast" "BoolNodeTrue" "Parse" false &&
+     Generated.globals.any (fun g => g.name == "nodeTypeNames" && g.mutable && g.escapes.isEmpty) &&
+     hasClosure Generated.closures "boltz" "NewBoolFuncSymbol" && hasClosure Generated.closures "boltz" "NewStringFuncSymbol") = true := by
+  decide
+
+/-- in the store model a reader's paging lives in the reader's own query: a paged empty filter is a page of the unpaged
+    answer on the same version, whatever other queries were evaluated before -/
+theorem paged_query_is_page_of_all (sk l : Nat) (v : Ver) :
+    evalQ (.qPage sk l) v = page sk l (evalQ .qAll v) ∧ evalQ (.qPage 0 0) v = evalQ .qAll v ∧
+    (0 < l → (evalQ (.qPage sk l) v).length ≤ l) := by
+  refine ⟨rfl, by simp [evalQ, page], fun hl => ?_⟩
+  have : (l == 0) = false := by simp; omega
+  simp [evalQ, page, this, List.length_take]
+  omega
+
 /-! ## Non-vacuity -/
 
 /-- an interleaving in which a reader that began before a commit keeps answering from the old
@@ -129,5 +171,28 @@ def tableWithUnlockedCache : List GlobalVar :=
   [{ pkg := "boltz", name := "symbolCache", kind := VarKind.plain,
      writes := [{ func := "BaseStore.GetSymbol", how := WriteHow.elem, inInit := false, underLock := false }] }]
 example : noUnsyncWrites tableWithUnlockedCache = false := by decide
+
+/-- the table shape of "ast.Parse returns one package-level query node for the empty filter" is rejected -/
+def tableWithSharedEmptyQuery : List GlobalVar :=
+  [{ pkg := "ast", name := "emptyQuery", kind := VarKind.plain, writes := [], typ := "*queryNode", mutable := true,
+     escapes := [{ func := "Parse", how := EscapeHow.returned }] }]
+example : noSharedMutableEscape tableWithSharedEmptyQuery [] = false := by decide
+/-- … while an immutable value handed out (BoolNodeTrue) and a mutable one that never leaves (the name maps) are accepted -/
+example : noSharedMutableEscape
+    [{ pkg := "ast", name := "BoolNodeTrue", kind := VarKind.plain, writes := [], mutable := false,
+       escapes := [{ func := "Parse", how := EscapeHow.returned }] },
+     { pkg := "ast", name := "nodeTypeNames", kind := VarKind.plain, writes := [], mutable := true, escapes := [] }] [] = true := by decide
+
+/-- the table shape of "one result buffer per symbol, hoisted out of the Eval closure" is rejected -/
+def closuresWithHoistedBuffer : List Closure :=
+  [{ pkg := "boltz", func := "NewBoolFuncSymbol", escape := EscapeHow.returned,
+     writes := [{ name := "buf", how := WriteHow.elem, decl := DeclKind.loc, underLock := false }] }]
+example : noSharedMutableEscape [] closuresWithHoistedBuffer = false := by decide
+
+/-- the second reader's unpaged list is not cut by the first reader's limit (the model's answers on one version) -/
+example :
+    let v : Ver := [⟨0, 0, 1, [], []⟩, ⟨1, 10, 2, [], []⟩, ⟨2, 20, 3, [], []⟩, ⟨3, 30, 0, [], []⟩, ⟨4, 40, 5, [], []⟩]
+    (evalQ (.qPage 0 2) v, evalQ .qAll v, evalQ (.qEven 1) v, evalQ (.qEven 0) v, evalQ (.vEven 0 1) v) =
+      ([0, 1], [0, 1, 2, 3, 4], [0, 2, 4], [1, 3], [1, 0]) := by decide
 
 end StorageModel.Properties.C18
